@@ -299,8 +299,11 @@ func suiteMerge(c *Ctx) {
 		}
 		req := reqgen.Enc(args)
 		for _, e := range edge {
-			if (q[0] == "mget" || q[0] == "del" || q[0] == "mset") && c.Quick() && e[0] != '+' {
-				// the split commands have a reply shape of their own; in the quick tier only the status lines
+			if (q[0] == "mget" || q[0] == "del" || q[0] == "mset") && e[0] != '+' {
+				// the split commands have a reply shape of their own (an array of bulks / nulls, a count
+				// between 0 and the number of keys, +OK): what the oracle says about other replies to them
+				// (`:-1`, a count above the number of keys, arrays of statuses) is not about any node's
+				// behaviour; they get the status lines only
 				continue
 			}
 			if q[0] == "mset" && strings.HasPrefix(e, "+OK") && e != "+OK\r\n" {
